@@ -132,6 +132,15 @@ func (vc *FnVC) assume(guard, fact Term) {
 	if fact == "true" {
 		return
 	}
+	// Every symbol is declared globally (passive form), so a fact about a value computed in a block must not constrain the
+	// paths that never reach that block: an "unconditional" assumption made while a block is being translated is guarded
+	// by that block's reachability literal. (Unguarded, the well-formedness of `path[1:]` - len(path)-1 >= 0 - made the
+	// whole len(path) == 0 branch of a function vacuous; found when a reverted fix still proved.)
+	if guard == "true" && vc.curBlock != nil {
+		if bl, ok := vc.blockLit[vc.curBlock]; ok && bl != "" {
+			guard = bl
+		}
+	}
 	vc.emit("(assert " + implies(guard, fact) + ")")
 }
 
